@@ -163,6 +163,13 @@ func H_c17_tables() {
 		src = Source()
 	}
 	vp.Observe("src", src)
+	// optional history on the same instance: concrete documents converted first (\x1f-separated)
+	if hs := vp.ParamStr("hist", ""); hs != "" {
+		for _, hdoc := range splitN(hs, 0x1f) {
+			var tmp bytes.Buffer
+			_ = m.Convert([]byte(hdoc), &tmp)
+		}
+	}
 	doc := m.Parser().Parse(text.NewReader(src))
 	type tinfo struct {
 		k     int
